@@ -90,6 +90,7 @@ type c20Stats struct {
 	worlds   int64
 	findings []c20Finding
 	nondet   []string
+	harness  []string // harness-level failures (never verdicts)
 }
 
 func newC20Stats() *c20Stats {
@@ -356,8 +357,11 @@ func (e *c20Exec) Do(op string) error {
 	case outcome == "applied" || outcome == "applied(noop)":
 		e.model = v.After[match]
 	case outcome == "unchanged" || outcome == "suppressed":
-		if !v.Valid {
-			e.model = v.After[0] // bookkeeping only (held / marked), graph identical
+		if !v.Valid && !(e.cfg.SamePeer && vclass == "err:recently-rejected") {
+			// bookkeeping only (held / marked), graph identical. A message the
+			// gossiper refused to look at ("recently rejected") is neither held
+			// nor does it mark anything.
+			e.model = v.After[0]
 		}
 		// a suppressed valid message leaves the model where it was
 	}
@@ -472,7 +476,7 @@ type c20Tier struct {
 	orderAlphabet, samePeerAlphabet          []string
 	byteBases                                []string // messages whose every byte is corrupted
 	byteStride                               int      // 1 = every offset
-	semSQL                                   bool
+	semSQL, bytesSQL                         bool
 	deadline                                 time.Duration
 }
 
@@ -482,22 +486,34 @@ var c20AlphabetCore = []string{
 }
 
 func c20Tiers(thorough bool) c20Tier {
+	var tr c20Tier
 	if thorough {
-		return c20Tier{
-			orderDepth: 5, orderDepthSQL: 4, samePeerDepth: 4,
-			orderAlphabet:    append(append([]string{}, c20AlphabetCore...), "xCA.btc2:=evil,resigned", "NA1b", "CA3", "CU3", "blk"),
+		tr = c20Tier{
+			orderDepth: 6, orderDepthSQL: 5, samePeerDepth: 4,
+			orderAlphabet: append(append([]string{}, c20AlphabetCore...), "xCA.btc2:=evil,resigned", "CA3", "blk",
+				"NA1b", "CU1b", "CU3", "xCA.node1:=evil,resigned", "xCA.scid=tiny-amount", "xCU.tiny-channel,max>capacity"),
+			samePeerAlphabet: append(append([]string{}, c20AlphabetCore...), "xCA.btc2:=evil,resigned"),
+			byteBases:        []string{"CA", "CU0b", "CU1b", "NA1b", "NA2"},
+			byteStride:       1, semSQL: true, bytesSQL: true, deadline: 26 * time.Minute,
+		}
+	} else {
+		tr = c20Tier{
+			orderDepth: 5, orderDepthSQL: 4, samePeerDepth: 3,
+			orderAlphabet:    append(append([]string{}, c20AlphabetCore...), "xCA.btc2:=evil,resigned", "CA3", "blk"),
 			samePeerAlphabet: c20AlphabetCore,
-			byteBases:        []string{"CA", "CU0b", "CU1a", "NA1b", "NA2"},
-			byteStride:       1, semSQL: true, deadline: 26 * time.Minute,
+			byteBases:        []string{"CA", "CU0b", "NA1b"},
+			byteStride:       1, semSQL: true, deadline: 150 * time.Second,
 		}
 	}
-	return c20Tier{
-		orderDepth: 4, orderDepthSQL: 3, samePeerDepth: 3,
-		orderAlphabet:    append(append([]string{}, c20AlphabetCore...), "xCA.btc2:=evil,resigned", "CA3", "blk"),
-		samePeerAlphabet: c20AlphabetCore,
-		byteBases:        []string{"CA", "CU0b", "NA1b"},
-		byteStride:       1, deadline: 150 * time.Second,
+	geti := func(k string, d *int) {
+		if v, err := strconv.Atoi(os.Getenv(k)); err == nil && v > 0 {
+			*d = v
+		}
 	}
+	geti("VERIF_C20_DEPTH", &tr.orderDepth)
+	geti("VERIF_C20_DEPTH_SQL", &tr.orderDepthSQL)
+	geti("VERIF_C20_DEPTH_SAMEPEER", &tr.samePeerDepth)
+	return tr
 }
 
 // contexts in which corruptions are delivered
@@ -543,11 +559,7 @@ func c20RunCases(t *testing.T, cases []c20Case, stats *c20Stats, deadline time.T
 				func() {
 					defer func() {
 						if r := recover(); r != nil {
-							stats.mu.Lock()
-							stats.findings = append(stats.findings, c20Finding{
-								Sig:  "panic|" + c.Space + "|" + c20OpClass(c.Ops[len(c.Ops)-1]),
-								What: fmt.Sprintf("panic while executing %v: %v", c.Ops, r), Case: c})
-							stats.mu.Unlock()
+							stats.panicked(c.Space, c.Cfg, c.Ops, r)
 						}
 					}()
 					viols, err := c20RunCase(t, c, stats, false, nil)
@@ -628,18 +640,33 @@ func c20OrderSpace(t *testing.T, name string, cfg c20Cfg, alphabet []string, dep
 			}
 		},
 	}
-	return seqmc.Run(opts, func(hist []string, v any) {
-		stats.mu.Lock()
-		defer stats.mu.Unlock()
-		op := "?"
-		if len(hist) > 0 {
-			op = hist[len(hist)-1]
+	return seqmc.Run(opts, func(hist []string, v any) { stats.panicked(name, cfg, hist, v) })
+}
+
+// panicked files a recovered panic: a panic raised by lnd while it processed a
+// message is a finding; a harness-level failure (bubble died, watchdog) is not.
+func (s *c20Stats) panicked(space string, cfg c20Cfg, hist []string, v any) {
+	s.mu.Lock()
+	defer s.mu.Unlock()
+	msg := fmt.Sprint(v)
+	if strings.Contains(msg, errC20Harness.Error()) || !strings.Contains(msg, "lnd panicked") {
+		if len(msg) > 600 {
+			msg = msg[:600]
 		}
-		stats.findings = append(stats.findings, c20Finding{
-			Sig:  "panic|" + name + "|" + c20OpClass(op),
-			What: fmt.Sprintf("panic while executing %v: %v", hist, v),
-			Case: c20Case{Space: name, Cfg: cfg, Ops: hist}})
-	})
+		s.harness = append(s.harness, fmt.Sprintf("%s %v: %s", space, hist, msg))
+		return
+	}
+	op := "?"
+	if len(hist) > 0 {
+		op = hist[len(hist)-1]
+	}
+	if len(msg) > 3000 {
+		msg = msg[:3000]
+	}
+	s.findings = append(s.findings, c20Finding{
+		Sig:  "panic|" + space + "|" + c20OpClass(op),
+		What: fmt.Sprintf("panic while executing %v: %s", hist, msg),
+		Case: c20Case{Space: space, Cfg: cfg, Ops: append([]string{}, hist...)}})
 }
 
 // ---------------------------------------------------------------------------
@@ -691,16 +718,40 @@ func c20Worker(t *testing.T) {
 			}
 		}
 	}
-	for _, id := range tier.byteBases {
-		base := c20Cat.get(id)
-		cn := "full"
-		if c20Kind(base.Decoded) == "ca" {
-			cn = "empty"
+	// ... and each corruption delivered *before* the honest messages: a corrupted
+	// update is held and replayed when the channel arrives, a corrupted
+	// announcement must not poison the honest one that follows
+	for _, be := range backends {
+		for _, fam := range [][]string{c20Cat.SemCA, c20Cat.SemCU, c20Cat.SemNA} {
+			for _, id := range fam {
+				semCases = append(semCases, c20Case{Space: "semantic/before-channel/" + be, Cfg: c20Cfg{Backend: be},
+					Ops: []string{id, "CA", "CU0a", "NA1"}})
+			}
 		}
-		for pos := 0; pos < len(base.Wire); pos += tier.byteStride {
-			for _, mask := range c20XorMasks {
-				byteCases = append(byteCases, c20Case{Space: "bytes/" + cn + "/kv", Cfg: c20Cfg{Backend: "kv"},
-					Ops: append(append([]string{}, c20Contexts[cn]...), fmt.Sprintf("%s@%d^%02x", id, pos, mask))})
+	}
+	byteBackends := []string{"kv"}
+	if tier.bytesSQL {
+		byteBackends = append(byteBackends, "sql")
+	}
+	for _, be := range byteBackends {
+		for _, id := range tier.byteBases {
+			base := c20Cat.get(id)
+			kind := c20Kind(base.Decoded)
+			cn := "full"
+			if kind == "ca" {
+				cn = "empty"
+			}
+			for pos := 0; pos < len(base.Wire); pos += tier.byteStride {
+				for _, mask := range c20XorMasks {
+					op := fmt.Sprintf("%s@%d^%02x", id, pos, mask)
+					byteCases = append(byteCases, c20Case{Space: "bytes/" + cn + "/" + be, Cfg: c20Cfg{Backend: be},
+						Ops: append(append([]string{}, c20Contexts[cn]...), op)})
+					if kind == "cu" && be == "kv" {
+						// the corrupted update arrives before its channel
+						byteCases = append(byteCases, c20Case{Space: "bytes/held/" + be, Cfg: c20Cfg{Backend: be},
+							Ops: []string{op, "CA"}})
+					}
+				}
 			}
 		}
 	}
@@ -710,7 +761,7 @@ func c20Worker(t *testing.T) {
 		exhaustive = false
 		caps = append(caps, fmt.Sprintf("deadline %s reached during the semantic corruption enumeration (%d of %d cases)", tier.deadline, nSem, len(semCases)))
 	}
-	c20Info("semantic corruptions: %d cases in %.1fs", nSem, time.Since(t0).Seconds())
+	c20Info("semantic corruptions: %d cases (%d variants) in %.1fs", nSem, len(c20Cat.SemCA)+len(c20Cat.SemCU)+len(c20Cat.SemNA), time.Since(t0).Seconds())
 	t0 = time.Now()
 	nByte, capped := c20RunCases(t, byteCases, stats, deadline)
 	if capped {
@@ -796,6 +847,16 @@ func c20Worker(t *testing.T) {
 			run.Violation(f.Sig, f.What, f.Case)
 			confirmed++
 		}
+	}
+	if len(stats.harness) > 0 {
+		c20Info("harness errors: %d executions abandoned, first: %s", len(stats.harness), stats.harness[0])
+		exhaustive = false
+		caps = append(caps, fmt.Sprintf("harness_errors: %d executions were abandoned (see harness_errors)", len(stats.harness)))
+		h := stats.harness
+		if len(h) > 10 {
+			h = h[:10]
+		}
+		cov["harness_errors"] = h
 	}
 	if len(stats.nondet) > 0 {
 		exhaustive = false
